@@ -14,14 +14,17 @@ CONSTANT Aspects                 \* which observations this validation gates on 
                                  \*   "report"  update report obeys ReportOK (C17)
                                  \*   "errrec"  content of the error record given to the handler (C02)
                                  \*   "recv"    the definition received the caller's objects (C01/C11)
-VARIABLE l                       \* next line of the trace
-tvars == <<vars, l>>
+VARIABLE l,                      \* next line of the trace
+         lay                     \* per policy: the memory layout recorded after the last update (C04)
+tvars == <<vars, l, lay>>
 
 Tr == ndJsonDeserialize(IOEnv.TRACE)
 Ev == Tr[l]
 IsEvent(k) == l <= Len(Tr) /\ Tr[l].e = k /\ l' = l + 1
+KeepLay == UNCHANGED lay
 
-TInit == Init /\ l = 1
+NoLayout == [size |-> 0, vptr |-> <<>>, ms |-> <<>>, dt |-> <<>>]
+TInit == Init /\ l = 1 /\ lay = [p \in Policy |-> NoLayout]
 
 (* several executions are concatenated in one file, separated by reset *)
 TReset ==
@@ -31,17 +34,19 @@ TReset ==
     /\ defs' = [p \in Policy |-> <<>>] /\ inst' = [p \in Policy |-> NotInstalled]
     /\ fresh' = [p \in Policy |-> FALSE] /\ handler' = [p \in Policy |-> "throw"]
     /\ vps' = <<>> /\ dead' = FALSE /\ obs' = [k |-> "init"]
+    /\ lay' = [p \in Policy |-> NoLayout]
 
-TClass    == IsEvent("class")    /\ RegisterClass(Ev.p, [r |-> Ev.r, c |-> Ev.c, bases |-> Ev.bases, abs |-> Ev.abs])
-TUnclass  == IsEvent("unclass")  /\ UnregisterClass(Ev.p, Ev.r)
-TMethod   == IsEvent("method")   /\ DeclareMethod(Ev.p, Ev.m, Ev.vp)
-TUnmethod == IsEvent("unmethod") /\ RetireMethod(Ev.p, Ev.m)
-TDef      == IsEvent("def")      /\ AddDefinition(Ev.p, Ev.m, Ev.d, Ev.vp)
-TUndef    == IsEvent("undef")    /\ RemoveDefinition(Ev.p, Ev.m, Ev.d)
-THandler  == IsEvent("handler")  /\ SetHandler(Ev.p, Ev.kind)
+TClass    == IsEvent("class")    /\ KeepLay /\ RegisterClass(Ev.p, [r |-> Ev.r, c |-> Ev.c, bases |-> Ev.bases, abs |-> Ev.abs])
+TUnclass  == IsEvent("unclass")  /\ KeepLay /\ UnregisterClass(Ev.p, Ev.r)
+TMethod   == IsEvent("method")   /\ KeepLay /\ DeclareMethod(Ev.p, Ev.m, Ev.vp)
+TUnmethod == IsEvent("unmethod") /\ KeepLay /\ RetireMethod(Ev.p, Ev.m)
+TDef      == IsEvent("def")      /\ KeepLay /\ AddDefinition(Ev.p, Ev.m, Ev.d, Ev.vp)
+TUndef    == IsEvent("undef")    /\ KeepLay /\ RemoveDefinition(Ev.p, Ev.m, Ev.d)
+THandler  == IsEvent("handler")  /\ KeepLay /\ SetHandler(Ev.p, Ev.kind)
 
 TUpdate ==
     /\ IsEvent("update")
+    /\ lay' = [lay EXCEPT ![Ev.p] = NoLayout]
     /\ \/ Ev.res = "ok"       /\ IF "report" \in Aspects
                                   THEN UpdateOK(Ev.p, Ev.rep) /\ Ev.rep.cells = Ev.rep.built
                                   ELSE UpdateOKAnyReport(Ev.p)
@@ -54,6 +59,7 @@ RowSet(rows) == {rows[i][1] : i \in DOMAIN rows}
 AllTuples(p, m) == LegalTuples(inst[p].anc, inst[p].cls, inst[p].mvp[m])
 
 TTable ==
+    /\ KeepLay
     /\ IsEvent("table")
     /\ ~dead /\ fresh[Ev.p] /\ inst[Ev.p].ok /\ Ev.m \in DOMAIN inst[Ev.p].mvp
     /\ RowSet(Ev.rows) = AllTuples(Ev.p, Ev.m)
@@ -72,6 +78,7 @@ CRowOK(p, m, row) ==
             "errrec" \in Aspects => row[3] = <<rec.status, rec.arity, rec.types>>
 
 TCTable ==
+    /\ KeepLay
     /\ IsEvent("ctable")
     /\ ~dead /\ fresh[Ev.p] /\ inst[Ev.p].ok /\ Ev.m \in DOMAIN inst[Ev.p].mvp
     /\ handler[Ev.p] = "throw"
@@ -81,11 +88,13 @@ TCTable ==
     /\ UNCHANGED <<classes, methods, defs, inst, fresh, handler, vps, dead>>
 
 TResolve ==
+    /\ KeepLay
     /\ IsEvent("resolve")
     /\ Resolve(Ev.p, Ev.m, Ev.t)
     /\ obs'.o = Ev.o
 
 TCall ==
+    /\ KeepLay
     /\ IsEvent("call")
     /\ Call(Ev.p, Ev.m, Ev.t)
     /\ \/ Ev.o >= 0 /\ obs'.k = "ran" /\ obs'.d = Ev.o
@@ -98,6 +107,7 @@ TCall ==
 (* the child process died with SIGABRT: legal only as the specified end of a *)
 (* call whose handler returned                                             *)
 TDied ==
+    /\ KeepLay
     /\ IsEvent("died")
     /\ dead /\ obs.k = "err" /\ obs.then = "aborted" /\ Ev.sig = 6
     /\ obs' = [k |-> "died"]
@@ -106,14 +116,75 @@ TDied ==
 (* end of one execution (appended by the parent of the executing child):   *)
 (* an aborting outcome must have been followed by the death of the child   *)
 TEnd ==
+    /\ KeepLay
     /\ IsEvent("end")
     /\ dead => obs.k = "died"
     /\ obs' = [k |-> "end"]
     /\ dead' = TRUE          \* nothing may follow but a reset
     /\ UNCHANGED <<classes, methods, defs, inst, fresh, handler, vps>>
 
+(***************************************************************************)
+(* C04: where update put things.  Offsets are in words from the start of    *)
+(* the policy's dispatch data: size, the (biased) v-table pointer of every  *)
+(* class, the installed slots and strides of every method, the extent of    *)
+(* every multi-method dispatch table.  Slot numbers and table order are     *)
+(* implementation freedom; what is required is the declarative contract:   *)
+(* every (class, method, parameter) with the class acceptable at that        *)
+(* parameter owns a cell inside the data, no two share a cell, no cell lies  *)
+(* inside a dispatch table, tables are inside the data and disjoint.        *)
+(***************************************************************************)
+Lookup(seq, k) == seq[CHOOSE i \in DOMAIN seq : seq[i][1] = k]
+HasKey(seq, k) == \E i \in DOMAIN seq : seq[i][1] = k
+CellOf(L, c, m, i) == Lookup(L.vptr, c)[2] + Lookup(L.ms, m)[2][i]
+Triples(p) ==
+    {tr \in inst[p].cls \X (DOMAIN inst[p].mvp) \X (1..4) :
+        tr[3] <= Len(inst[p].mvp[tr[2]]) /\ inst[p].mvp[tr[2]][tr[3]] \in inst[p].anc[tr[1]]}
+InTable(L, m, off) == HasKey(L.dt, m) /\ LET d == Lookup(L.dt, m) IN off >= d[2] /\ off < d[2] + d[3]
+LayoutOK(p, L) ==
+    /\ \A c \in inst[p].cls : HasKey(L.vptr, c)
+    /\ \A m \in DOMAIN inst[p].mvp : HasKey(L.ms, m) /\ Len(Lookup(L.ms, m)[2]) = Len(inst[p].mvp[m])
+    /\ \A m \in DOMAIN inst[p].mvp : Len(inst[p].mvp[m]) > 1 => HasKey(L.dt, m)
+    /\ \A i \in DOMAIN L.dt : L.dt[i][2] >= 0 /\ L.dt[i][3] >= 1 /\ L.dt[i][2] + L.dt[i][3] <= L.size
+    /\ \A i, j \in DOMAIN L.dt : i # j => (L.dt[i][2] + L.dt[i][3] <= L.dt[j][2] \/ L.dt[j][2] + L.dt[j][3] <= L.dt[i][2])
+    /\ LET T == Triples(p) IN
+         /\ \A tr \in T : LET cell == CellOf(L, tr[1], tr[2], tr[3]) IN
+               /\ cell >= 0 /\ cell < L.size
+               /\ \A i \in DOMAIN L.dt : ~(cell >= L.dt[i][2] /\ cell < L.dt[i][2] + L.dt[i][3])
+         /\ \A t1, t2 \in T : t1 # t2 => CellOf(L, t1[1], t1[2], t1[3]) # CellOf(L, t2[1], t2[2], t2[3])
+
+TLayout ==
+    /\ IsEvent("layout")
+    /\ ~dead /\ fresh[Ev.p] /\ inst[Ev.p].ok
+    /\ LayoutOK(Ev.p, Ev)
+    /\ lay' = [lay EXCEPT ![Ev.p] = [size |-> Ev.size, vptr |-> Ev.vptr, ms |-> Ev.ms, dt |-> Ev.dt]]
+    /\ obs' = [k |-> "layout"]
+    /\ UNCHANGED <<classes, methods, defs, inst, fresh, handler, vps, dead>>
+
+(* the addresses a resolve really dereferenced (hook H2), rows [t, reads]:   *)
+(* the v-table reads are exactly the cells owned by (class of argument i,   *)
+(* method, i), in order; every dispatch-table read lies in this method's     *)
+(* table; a uni-method reads nothing else.                                 *)
+Kind(reads, k) == SelectSeq(reads, LAMBDA r : r[1] = k)
+ReadsRowOK(p, m, row) ==
+    LET L == lay[p] t == row[1] v == Kind(row[2], "v") d == Kind(row[2], "d") IN
+    /\ Len(v) = Len(t)
+    /\ \A i \in DOMAIN t : v[i][2] = CellOf(L, t[i], m, i)
+    /\ Len(v) + Len(d) = Len(row[2])
+    /\ IF Len(t) = 1 THEN d = <<>> ELSE Len(d) = 1 /\ InTable(L, m, d[1][2])
+
+TReads ==
+    /\ IsEvent("reads")
+    /\ KeepLay
+    /\ ~dead /\ fresh[Ev.p] /\ inst[Ev.p].ok /\ Ev.m \in DOMAIN inst[Ev.p].mvp
+    /\ lay[Ev.p].size > 0
+    /\ RowSet(Ev.rows) = AllTuples(Ev.p, Ev.m)
+    /\ \A i \in DOMAIN Ev.rows : ReadsRowOK(Ev.p, Ev.m, Ev.rows[i])
+    /\ obs' = [k |-> "reads"]
+    /\ UNCHANGED <<classes, methods, defs, inst, fresh, handler, vps, dead>>
+
 (* what every definition's next refers to: rows [d, o] *)
 TNext ==
+    /\ KeepLay
     /\ IsEvent("next")
     /\ ~dead /\ fresh[Ev.p] /\ inst[Ev.p].ok /\ Ev.m \in DOMAIN inst[Ev.p].D
     /\ {Ev.rows[i][1] : i \in DOMAIN Ev.rows} = {x.d : x \in inst[Ev.p].D[Ev.m]}
@@ -124,7 +195,7 @@ TNext ==
 
 TNextStep ==
     \/ TReset \/ TClass \/ TUnclass \/ TMethod \/ TUnmethod \/ TDef \/ TUndef \/ THandler
-    \/ TUpdate \/ TTable \/ TCTable \/ TResolve \/ TCall \/ TDied \/ TNext \/ TEnd
+    \/ TUpdate \/ TTable \/ TCTable \/ TResolve \/ TCall \/ TDied \/ TNext \/ TEnd \/ TLayout \/ TReads
 
 TSpec == TInit /\ [][TNextStep]_tvars
 
